@@ -116,6 +116,7 @@ class Tamper:
         self.held = {}
         self.early_pake = {}
         self.early_done = {}
+        self.downstream = None    # optionally a ReorderDup that pools what this layer sends out
         self.out_of_order = 0
         self.dups = 0
 
@@ -163,11 +164,14 @@ class Tamper:
                 continue
             if kind.startswith("tampered"):
                 self.tampered.append((v, kind, dict(kw)))
-            conn.real_send("message", **kw)
+            if self.downstream is not None:
+                self.downstream.intercept(conn, "message", kw)
+            else:
+                conn.real_send("message", **kw)
         return True
 
     def actions(self):
-        return []
+        return self.downstream.actions() if self.downstream is not None else []
 
     def _mut_body(self, body_hex, how, rng):
         b = bytearray(bytes.fromhex(body_hex))
